@@ -367,7 +367,20 @@ func init() {
 				val = sb.String()
 			case "ipMatch":
 				arg, val = ipArgVal(c.r)
-			case "validateUtf8Encoding", "unconditionalMatch", "noMatch":
+			case "validateUtf8Encoding":
+				// well-formed sequences at the edges of every length class (U+FFFD itself among them), next to
+				// overlong forms, surrogates, values past U+10FFFF, cut sequences and stray continuation bytes
+				var sb strings.Builder
+				for k := 1 + c.r.Intn(4); k > 0; k-- {
+					sb.WriteString(c.r.Pick("a", "~", "\x00", "\u0080", "\u07ff", "\u0800", "\ufffd", "\uffff", "\ud7ff", "\ue000", "\U00010000", "\U0010ffff", "\ufffe", "é", "你",
+						"\xc0\x80", "\xc1\xbf", "\xe0\x80\x80", "\xe0\x9f\xbf", "\xf0\x80\x80\x80", "\xf0\x8f\xbf\xbf", "\xed\xa0\x80", "\xed\xbf\xbf",
+						"\xf4\x90\x80\x80", "\xf5\x80\x80\x80", "\xff", "\x80", "\xbf", "\xc3", "\xe4\xbd", "\xf0\x9f\x98", "\xef\xbf", "\xc3\x28"))
+				}
+				val = sb.String()
+				if c.r.Chance(0.3) {
+					val = c.r.Bytes(6)
+				}
+			case "unconditionalMatch", "noMatch":
 				val = c.r.Bytes(6)
 			default:
 				arg = c.r.Bytes(3)
